@@ -652,6 +652,13 @@ impl JsValue {
                             .collect();
                         JsString::from(strings.join(","))
                     }
+                    // Built-in classes with a Symbol.toStringTag
+                    ExoticObject::Generator(_) | ExoticObject::BytecodeGenerator(_) => {
+                        JsString::from("[object Generator]")
+                    }
+                    ExoticObject::Map { .. } => JsString::from("[object Map]"),
+                    ExoticObject::Set { .. } => JsString::from("[object Set]"),
+                    ExoticObject::Promise(_) => JsString::from("[object Promise]"),
                     _ => JsString::from("[object Object]"),
                 }
             }
